@@ -1,5 +1,3 @@
-//verif:v2only (root-module instantiation pending: API differences)
-
 package codecprops
 
 // C07 (codec level) - field exclusion is exact on both encode and decode.
